@@ -743,6 +743,8 @@ class SymEval:
             name = path_of(e[1])
             if m == "extend_from_slice":
                 m = "extend"
+            if m in ("reserve", "reserve_exact", "shrink_to_fit", "shrink_to"):
+                return UNIT
             if m in ("push", "extend", "append", "insert", "clear", "pop", "truncate") and isinstance(items, list):
                 # Vec values are shared mutable objects (a `&mut` alias sees the change); clone()/to_vec()/collect() copy
                 if m == "push" and len(args) == 1:
